@@ -23,6 +23,14 @@ PROPS_ENC = {'C09', 'C01', 'C15'}
 PROPS_DEC = {'C02', 'C01', 'C15'}
 
 UNSIGNED = {'U8': ('u8', 8), 'U16': ('u16', 16), 'U32': ('u32', 32), 'U64': ('u64', 64)}
+SIGNED_PARSE = '''            #[verifier::external_body]
+            pub fn parse_I16(&mut self, len: usize) -> (r: Result<i16, RtcmError>)
+                requires 1 <= len <= 16,
+                ensures
+                    (r is Err) == (old(self).rest().len() < len),
+                    r is Err ==> r->Err_0 is BufferOverflow && final(self).rest() == old(self).rest() && final(self).nz() == old(self).nz(),
+                    r is Ok ==> final(self).rest() == old(self).rest().subrange(len as int, old(self).rest().len() as int),
+            { unimplemented!() }'''
 
 PRELUDE2 = '''
 pub open spec fn pow2(n: nat) -> int decreases n { if n == 0 { 1 } else { 2 * pow2((n - 1) as nat) } }
@@ -39,6 +47,13 @@ pub proof fn lemma_consume(s0: Seq<bool>, k: int, m: int)
     assert(s0.subrange(k, s0.len() as int).subrange(m, s0.len() - k) =~= s0.subrange(k + m, s0.len() as int));
     assert(s0.subrange(0, k) + s0.subrange(k, k + m) =~= s0.subrange(0, k + m));
 }
+// float operations that cannot panic, abstracted (Verus has no float arithmetic)
+#[verifier::external_body]
+pub fn verif_f32_scale(v: i16, k: f32) -> (r: f32) { unimplemented!() }
+#[verifier::external_body]
+pub fn verif_i16_to_f32(v: i16) -> (r: f32) { unimplemented!() }
+#[verifier::external_body]
+pub fn verif_f32_mul(a: f32, k: f32) -> (r: f32) { unimplemented!() }
 pub proof fn lemma_seq_assoc(a: Seq<bool>, b: Seq<bool>, c: Seq<bool>)
     ensures (a + b) + c == a + (b + c),
 {
@@ -532,6 +547,36 @@ def emit_str(vf, exp, path, fr, ind):
     vgen.emit_fn(vf, exp, path + ['fn:decode'], sp, label='%s::decode' % '::'.join(path[1:]), indent=ind, keep_pub=True)
 
 
+def emit_bias_decode(vf, exp, path, fr, ind):
+    """C16/C02: the hand-written bias-list decoders, real text, verified for panic-freedom and the capacity bound.
+    Emitted as `decode_checked` next to the external `decode` the parents call (the bit-log claim is void for these fragments)."""
+    for c in fr.mod.children:
+        if c.kind == 'fn' and c.name == 'to_sig':
+            sp = FnSpec(); sp.ret = 'r'; sp.body_props = {'C16', 'C02'}
+            vgen.emit_fn(vf, exp, path + ['fn:to_sig'], sp, label='%s::to_sig' % fr.name, indent=ind, keep_pub=True)
+    m = re.search(r'DataVec::<(\w+), (\w+)>::new\(\)', fr.dec_body)
+    if not m:
+        raise ToolLimit('%s: decode does not create its DataVec as expected' % fr.name)
+    cap = m.group(2)
+    sp = FnSpec(); sp.ret = 'r'; sp.body_props = {'C16', 'C02'}
+    sp.rename = 'decode_checked'
+    sp.replace = list(R6) + [
+        (r'\(par\.parse_I16\((\d+)\)\? as f32\) \* ([0-9.]+)', r'crate::verif_f32_scale(par.parse_I16(\1)?, \2)', 'RF float arithmetic (int->f32 cast and multiplication by a constant; cannot panic) abstracted by an uninterpreted helper'),
+        (r'par\.parse_I16\((\d+)\)\? as f32', r'crate::verif_i16_to_f32(par.parse_I16(\1)?)', 'RF int->f32 cast abstracted (cannot panic)'),
+        (r'bias_m: bias \* ([0-9.]+)', r'bias_m: crate::verif_f32_mul(bias, \1)', 'RF float multiplication abstracted (cannot panic)'),
+        (r'::core::panicking::panic\("internal error: entered unreachable code"\),?', 'unreachable!(),', 'RX expansion of unreachable!() folded back'),
+    ]
+    sp.replace = [(a, b, c if c.startswith('R6') else 'R6-opt ' + c) for (a, b, c) in sp.replace]
+    sp.ensures = [('l2.%s.decode.never_exceeds_capacity' % fr.name, {'C16', 'C02'}, 'r is Ok ==> r->Ok_0@.len() <= %s' % cap)]
+    nloops = len(re.findall(r'\bfor\b', fr.dec_body))
+    if nloops == 2:
+        sp.loops[0] = '    invariant value@.len() <= %s,' % cap
+        sp.loops[1] = '    invariant value@.len() <= %s,' % cap
+    else:
+        sp.loops[0] = '    invariant value@.len() <= i, i <= 4,'
+    vgen.emit_fn(vf, exp, path + ['fn:decode'], sp, label='df::dfs::%s::decode' % fr.name, indent=ind, keep_pub=True)
+
+
 def find_sat_elem(exp, mod, fr):
     """name of the satellite row struct: the data segment's satellite fragment is a shared module (msmNN_sat) imported by glob"""
     st = exp.text[fr.struct.start:fr.struct.end]
@@ -595,10 +640,10 @@ def emit_module(vf, exp, path, mod, depth, stats, leafs, parent_mod=None):
             body = fr.enc_body + ' ' + fr.dec_body
             if fr.kind == 'grid':
                 why = 'frag_grid16p! (Grid16P::iter_mut element assignment is outside the rewrite list)'
-            elif why is None and re.search(r'\bsat_mask\b|sort_unstable_by|cell_mask_id_vec', body):
-                why = 'MSM template (msm_data_seg_frag!/msm_sat_frag!/msm_sig_frag!): masks and sorting are under contract in unit msm'
             elif why is None and fr.name in ('df_msg1059_biases', 'df_msg1065_biases', 'df_msg1230_biases', 'df_msg1029_utf8_str'):
                 why = 'hand-written codec (bias lists / UTF-8 text): iterator adapters outside Verus'
+            elif why is None and re.search(r'\bsat_mask\b|sort_unstable_by|cell_mask_id_vec', body) and re.search(r'satellite_id', body):
+                why = 'MSM template (msm_sat_frag!/msm_sig_frag!, decode side of msm_data_seg_frag!): closure sort and iter_mut zip are outside Verus'
             if why is None:
                 raise ToolLimit('fragment %s does not match any template known to unit l2 (encode: %s)' % ('::'.join(path), fr.enc_body[:200]))
             stats['opaque'].append(('::'.join(path), why))
@@ -607,6 +652,8 @@ def emit_module(vf, exp, path, mod, depth, stats, leafs, parent_mod=None):
             m = re.search(r'par: &mut Parser\s*,\s*(.+?)\)\s*->', fr.dec_sig)
             if m:
                 extra = ', ' + m.group(1)
+            if fr.name in ('df_msg1059_biases', 'df_msg1065_biases', 'df_msg1230_biases'):
+                emit_bias_decode(vf, exp, path, fr, i2)
             stub = opaque_frag_stub(fr.name, None, extra)
             if 'msm_rows' in dir() and msm_rows:
                 # row fragments only call data-field encoders: by inspection their only errors are the leaves' (assumed, listed)
@@ -631,6 +678,12 @@ def emit_mappings(vf, exp):
             sp = FnSpec(); sp.ret = 'r'; sp.body_props = {'C10'}
             sp.ensures = [('l2.sig.%s.%s.twin' % (g.name, fn), {'C10'}, ens)]
             vgen.emit_fn(vf, exp, base + ['fn:' + fn], sp, label='msm_mappings::%s::%s' % (g.name, fn), indent='            ', keep_pub=True)
+        vf.emit('            impl SigId {')
+        for fn in ('new', 'band', 'attribute'):
+            sp = FnSpec(); sp.ret = 'r'; sp.body_props = {'C16', 'C02'}
+            sp.ensures = [('l2.sig.%s.%s' % (g.name, fn), {'C16'}, {'new': 'r.0 == band && r.1 == attribute', 'band': 'r == self.0', 'attribute': 'r == self.1'}[fn])]
+            vgen.emit_fn(vf, exp, base + ['impl:SigId', fn], sp, label='msm_mappings::%s::SigId::%s' % (g.name, fn), indent='                ', keep_pub=True)
+        vf.emit('            }')
         vf.emit('            pub proof fn lemma_id_range(s: SigId) ensures to_id_spec(s) is Some ==> 2 <= to_id_spec(s)->Some_0 <= 32 {}')
         vf.emit('        }')
     vf.emit('    }')
@@ -647,7 +700,7 @@ def build(vf, srcs):
     vgen.process_template(vf, os.path.join(common.VERIF, 'contracts', 'l2_prelude.vt'), srcs)
     # strip the closing of the prelude's verus! block: the template leaves it open on purpose
     leaves = '\n'.join(leaf_stub(f) for f in fields)
-    pre = PRELUDE2.replace('@PUTS@', '\n'.join(put_stub(c) for c in UNSIGNED)).replace('@PARSES@', '\n'.join(parse_stub(c) for c in UNSIGNED)).replace('@LEAVES@', leaves)
+    pre = PRELUDE2.replace('@PUTS@', '\n'.join(put_stub(c) for c in UNSIGNED)).replace('@PARSES@', '\n'.join(parse_stub(c) for c in UNSIGNED) + '\n' + SIGNED_PARSE).replace('@LEAVES@', leaves)
     vf.emit(pre)
     stats = {'record': [], 'opaque': []}
     dfs = exp.find(['df', 'dfs'])
